@@ -266,8 +266,6 @@ impl<T> AtomicBucket<T> {
                         // the nextious block.
                         Ok(ptr) => {
                             let new_tail = unsafe { ptr.deref() };
-                            #[cfg(metrics_verif)]
-                            metrics::verif::point("bkt.push.link");
                             new_tail.next.store(tail, Ordering::Release);
 
                             // Now push into our new block.
